@@ -33,6 +33,7 @@ type Registry struct {
 	header    []string // datatype declarations, in dependency order
 	tags      []types.Type
 	sentinels []string // sentinel globals: bit index in errclass
+	ufs       []string
 }
 
 func newRegistry() *Registry {
@@ -44,6 +45,16 @@ func newRegistry() *Registry {
 		"(assert (= (errclass 0) #x00000000))",
 	)
 	return r
+}
+
+func (r *Registry) declareUF(name string, sorts []string, ret string) {
+	for _, u := range r.ufs {
+		if u == name {
+			return
+		}
+	}
+	r.ufs = append(r.ufs, name)
+	r.header = append(r.header, fmt.Sprintf("(declare-fun uf_%s (%s) %s)", name, strings.Join(sorts, " "), ret))
 }
 
 func (r *Registry) structIndex(st *types.Struct) int {
